@@ -1,6 +1,6 @@
 # C07 -- Feynman parameters follow the sector formula and the tropical normalisation.
 from common import *
-import graphs as G, samplecorr as SC, exact as X
+import graphs as G, samplecorr as SC, exact as X, tablecorr as TC
 from fractions import Fraction as Fr
 import mpmath
 
@@ -39,12 +39,94 @@ def f_monomial_max(c, x, trees):
     return best
 
 
+def tropical_normalisation(c, xs, dod):
+    """U_tr^(D/2) V_tr^dod with the TRUE tropical polynomials (largest monomials of U and F, brute force, exact) at the parameters
+    xs; None when the case has no generic kinematics (see run) or E > 7"""
+    pairs = [(e[0], e[1]) for e in c["edges"]]
+    ext = set(c["externals"])
+    allv = {v for pr in pairs for v in pr}
+    if not (len(xs) <= 7 and all(math.isfinite(t) and t > 0 for t in xs) and ext <= allv
+            and (len(ext) >= 2 or (len(ext) == 0 and any(e[2] for e in c["edges"])))):
+        return None
+    xq = [Fr(t) for t in xs]
+    trees = G.spanning_trees(pairs)
+    Ut = None
+    for T in trees:
+        pr_ = Fr(1)
+        for e in range(len(xq)):
+            if e not in T:
+                pr_ *= xq[e]
+        Ut = pr_ if Ut is None or pr_ > Ut else Ut
+    Fm = f_monomial_max(c, xq, trees)
+    if Ut is None or Fm is None:
+        return None
+    return float(Ut) ** (c["D"] / 2.0) * float(Fm / Ut) ** dod
+
+
+def sector_mismatch(c, fi, order, tabx, timpl):
+    """sector formula with the exact omega along the removal order; returns a message or None"""
+    n = SC.case_numbers(c)
+    E, D, L = n["E"], n["D"], n["L"]
+    pt = n["point"]
+    xpre = SC.floats(fi["x_pre"])
+    W = [mpmath.mpf(t_[2].numerator) / t_[2].denominator for t_ in tabx]
+    delta = 8 * 2.0**-53 * (sum(abs(b2f(e_[3])) for e_ in c["edges"]) + L * D / 2.0 + abs(b2f(timpl["dod"])))
+    g, prod, slack = (1 << E) - 1, mpmath.mpf(1), 0.0
+    for k, e in enumerate(order):
+        if not rel_close(xpre[e], float(prod), 1e-11 * (k + 1) + 4 * slack):
+            return "x[%d] (removed %d-th) = %r, sector formula with the true omega gives %r" % (e, k + 1, xpre[e], float(prod))
+        g ^= 1 << e
+        if g:
+            xi = mpmath.mpf(pt[2 * k + 1])
+            prod *= xi ** (1 / W[g])
+            slack += float(abs(mpmath.log(xi)) / W[g] * delta / abs(W[g]))
+    return None
+
+
+def search_through(rep, c, timpl, tabx, gstar):
+    """the table holds a wrong omega at subset gstar: build a point whose removal path passes through gstar (edge draws in the
+    middle of the intervals of the implementation's own table, xi = 1/2) and report it if the sector formula fails there"""
+    import importlib
+    c06 = importlib.import_module("props.c06")
+    E = len(c["edges"])
+    full = (1 << E) - 1
+    first = [e for e in range(E) if not gstar >> e & 1]
+    rest = [e for e in range(E) if gstar >> e & 1]
+    order = first + rest
+    c2 = json.loads(json.dumps(c))
+    pt = [0.5] * len(c2["point"])
+    g = full
+    for k, e in enumerate(order[:-1]):
+        ps = c06.prefix_sums(timpl, g)
+        lo = 0.0
+        for (ee, h, cum) in ps:
+            if ee == e:
+                pt[2 * k] = (lo + cum) / 2
+                break
+            lo = cum
+        g ^= 1 << e
+    c2["point"] = [f2b(v) for v in pt]
+    o = harness("sample", dict(cases=[c2]), timeout=120)["results"][0]
+    f2 = SC.impl_fields(o["f64"]) if "f64" in o else dict(tag="panic")
+    if f2.get("tag") != "ok" or not f2.get("x_pre"):
+        return False
+    xp = SC.floats(f2["x_pre"])
+    got_order = sorted(range(E), key=lambda e: -xp[e])
+    msg = sector_mismatch(c2, f2, got_order, tabx, timpl)
+    if msg:
+        rep.violation("property", "searched for a removal path through subset %d, whose omega in the implementation's table is wrong: %s" % (gstar, msg),
+                      case=c2, failing_input=True, what="sector formula fails on a constructed point")
+        return True
+    return False
+
+
 def run(rep, rng, tier, replay=None):
     extra = [replay["chosen"]["case"]] if replay and replay.get("chosen", {}).get("case") else []
     got = SC.standard_run(rep, rng, tier, "C07", ["x_pre", "x", "utrop_pre", "vtrop_pre"], 1e-11, n_quick=70, n_thorough=500,
                           nontrivial=lambda c: len(c["edges"]) >= 3, extra_cases=extra, emax=6 if tier == "quick" else 7)
     mpmath.mp.dps = 40
     gap = dict(vtrop_checked=0, vtrop_skipped=0)
+    nsearch = 0
     for c, fi, m, o, timpl in got:
         n = SC.case_numbers(c)
         E, D, L = n["E"], n["D"], n["L"]
@@ -58,18 +140,32 @@ def run(rep, rng, tier, replay=None):
         if not all(math.isfinite(v) and v > 0 for v in xpre + xs):
             gap["underflow_skipped"] = gap.get("underflow_skipped", 0) + 1     # kappa under/overflowed: beyond binary64 range
             continue
-        # the implementation's own table
-        W = [b2f(v) for v in timpl["dod_bits"]]
+        # omega(g): the TRUE generalised degrees of divergence (exact rationals from union-find), not the implementation's table
+        tabx, _, _ = G.exact_table(TC.case_graph(c))
+        W = [mpmath.mpf(t_[2].numerator) / t_[2].denominator for t_ in tabx]
+        wrong = [g_ for g_ in range(1, len(tabx) - 1) if bin(g_).count("1") >= 1 and not rel_close(b2f(timpl["dod_bits"][g_]), float(tabx[g_][2]), 1e-9, 1e-12)]
+        if wrong and nsearch < 6:
+            nsearch += 1
+            rep.violation("correspondence", "the implementation's table holds omega(%d) = %r, exact %s: searching for a point whose removal path passes through it" % (
+                wrong[0], b2f(timpl["dod_bits"][wrong[0]]), float(tabx[wrong[0]][2])), case=c)
+            for gs in wrong[:3]:
+                if search_through(rep, c, timpl, tabx, gs):
+                    break
         # sector formula
         g = (1 << E) - 1
         prod = mpmath.mpf(1)
+        # the code holds omega(g) as a binary64 number formed by a few additions: absolute rounding error delta; its effect on
+        # kappa = prod xi^(1/omega) is |ln xi| / omega * delta / omega per step (first order), accumulated in `slack`
+        delta = 8 * 2.0**-53 * (sum(abs(b2f(e_[3])) for e_ in c["edges"]) + L * D / 2.0 + abs(b2f(timpl["dod"])))
+        slack = 0.0
         for k, e in enumerate(order):
-            if not rel_close(xpre[e], float(prod), 1e-11 * (k + 1)):
+            if not rel_close(xpre[e], float(prod), 1e-11 * (k + 1) + 4 * slack):
                 bad.append("x[%d] (removed %d-th) = %r, sector formula gives %r" % (e, k + 1, xpre[e], float(prod)))
             g ^= 1 << e
             if g:
                 xi = mpmath.mpf(pt[2 * k + 1])
-                prod *= xi ** (1 / mpmath.mpf(W[g]))
+                prod *= xi ** (1 / W[g])
+                slack += float(abs(mpmath.log(xi)) / W[g] * delta / abs(W[g]))
         if sorted(order) != list(range(E)):
             bad.append("removal order %s is not a permutation" % order)
         # common rescaling and the normalisation U_tr^(D/2) V_tr^dod = 1
@@ -111,7 +207,7 @@ def run(rep, rng, tier, replay=None):
         rep.sample(dict(family=c["family"], order=order, x_pre=xpre, u_trop_pre=ut, v_trop_pre=vt))
     rep.cov["gap_validation"] = gap
     rep.cov["rule"] = ("accepted connected graphs E<=%d, 1..4 loops, D=1..6; the four debug-log quantities vs the Coq model (1e-11); then on the implementation's outputs: sector formula "
-                       "in 40-digit arithmetic with omega from the implementation's table, common rescaling, U_tr^(D/2)V_tr^dod=1, U_tr = max monomial of U by brute force over spanning "
+                       "in 40-digit arithmetic with the exact omega of every subgraph on the path (rationals, union-find), common rescaling, U_tr^(D/2)V_tr^dod=1, U_tr = max monomial of U by brute force over spanning "
                        "trees (exact), V_tr*U_tr = max monomial of F for generic kinematics by brute force over 2-forests and mass terms (validation of the gap the theorem leaves). "
                        "non-trivial = E>=3" % (6 if tier == "quick" else 7))
 
